@@ -14,7 +14,8 @@ EXTENDS Integers, Sequences, FiniteSets, TLC
 Classes == {"static", "stack", "heap", "data"}
 Releasing == {"del_raw", "dealloc", "dealloc_raw"}             \* release any heap object they are given
 Managed   == {"del", "del_root"}                                \* go through the collector's registry
-InPlace   == {"resize", "assign", "concat", "push", "pop", "popat"}     \* String / Tuple reallocate their own storage
+InPlace   == {"resize", "assign", "concat", "push", "pop", "popat",     \* String / Tuple reallocate their own storage
+              "append", "printto", "lookfrom", "lookempty", "scanshow"}  \* ... also through formatted writes and look / scan into a String
 Ops == Releasing \cup Managed \cup InPlace
 
 (* outcome of op on a live object of class cls; reg = the collector knows it (new / new_root / alloc / copy) *)
